@@ -112,12 +112,15 @@ def main():
     p = read_payload()
     qs = [gen.render(s, 1) for s in gen.sequences(p["max_tokens"])]
     qs += ["a AND (b OR c) AND d", "(a b) OR (c AND d) OR e", "f:(a OR b) AND g:c^2", "a OR b OR c OR d OR e", "(a AND b) (c OR d)",
-           "x:[1 TO 2] AND y~2 OR \"p q\"~3", "((a OR b) AND (c OR d)) OR e"]
+           "x:[1 TO 2] AND y~2 OR \"p q\"~3", "((a OR b) AND (c OR d)) OR e",
+           # compound elements that are true only through the negations below them (every negation is itself a named operand)
+           "x AND (a OR NOT b)", "x OR (NOT a AND -b)", "x AND NOT (NOT a AND NOT b)", "(a -b) OR c", "f:(NOT a OR b) AND c", "(NOT a OR NOT b) AND (c OR -d)",
+           "x (NOT a NOT b)", "NOT a OR (b AND NOT c)", "a AND (b OR (c AND NOT d))", "-a OR (-b AND (-c OR d))"]
     res = pmap(check, qs)
     failures = [f for r in res for f in r[1]]
     rest, hit = classify(failures, p.get("known", []))
     emit({"ok": not rest, "evaluations": sum(r[0] for r in res), "distinct_nontrivial": sum(1 for r in res if r[0] > 2),
-          "rule": "queries = accepted token sequences of <= %d tokens + 7 nested ones satisfying the precondition, named by auto_name; "
+          "rule": "queries = accepted token sequences of <= %d tokens + 17 nested ones (10 with negated operands) satisfying the precondition, named by auto_name; "
                   "all 2^k truth assignments (k <= 6 named elements) x both default operations; distinct = queries with > 1 named element"
                   % p["max_tokens"],
           "bound": "token sequences <= %d, <= 6 named elements" % p["max_tokens"],
